@@ -246,6 +246,8 @@ PROPS = {
         runs=[dict(name="default", monitor="mon_c09", flavour="plain", cases={"quick": 48000, "thorough": 3000000}),
               dict(name="general-only", monitor="mon_c09", flavour="plain", config="general-only", env=GENERAL_ONLY, cases={"quick": 16000, "thorough": 1000000}),
               dict(name="wholeops", monitor="mon_c09", flavour="plain", config="wholeops", env={"PIXMAN_DISABLE": "wholeops"}, cases={"quick": 16000, "thorough": 1000000}),
+              dict(name="c-only", monitor="mon_c09", flavour="plain", config="c-only", env={"PIXMAN_DISABLE": "mmx sse2 ssse3"}, cases={"quick": 16000, "thorough": 1000000}),
+              dict(name="mmx-top", monitor="mon_c09", flavour="plain", config="mmx-top", env={"PIXMAN_DISABLE": "sse2 ssse3"}, cases={"quick": 8000, "thorough": 500000}),
               dict(name="asan", monitor="mon_c09", flavour="asan", cases={"quick": 5000, "thorough": 150000})],
         rule="case = (operator = index mod 53, role = source/mask/destination) on a random narrow-format request (transforms incl. projective, NEAREST/BILINEAR, all repeats, clips, offsets that put part of the request outside a REPEAT_NONE source); "
              "the image in that role is rebuilt with the same opaque content in 2..3 presentations: {x8r8g8b8 with noisy x bits, a8r8g8b8 with alpha 255}, {r5g6b5, x8r8g8b8 holding the replicated values, a8r8g8b8(255)}, "
@@ -421,7 +423,7 @@ MANIFEST_TEXT["C08"] = dict(
     level_note="trusted: the sampler in harness/mon_c08.c; codec from ref_pixel.c")
 
 MANIFEST_TEXT["C09"] = dict(
-    technique="metamorphic runtime monitor: identical opaque content in different presentations (alpha-less / alpha=255 / 565 / solid / 1x1 repeat) as source, mask or destination must give the same picture; 3 implementation chains",
+    technique="metamorphic runtime monitor: identical opaque content in different presentations (alpha-less / alpha=255 / 565 / solid / 1x1 repeat) as source, mask or destination must give the same picture; 5 implementation chains (default, general-only, wholeops disabled, C fast paths on top, MMX on top)",
     level_text="Exploration: 10^5..5*10^6 request groups over all 53 operators x 3 roles x presentation groups x transforms/filters/repeats, exercising every opacity-driven operator reduction and IS_OPAQUE/SAMPLES_OPAQUE promotion; pixel-exact comparison (two code values for float-class operators; a pair of an alpha-dividing operator that hook H2 shows to have been served at two different precisions is not judged, as the statement allows).",
     level_note="trusted: the content painter in harness/mon_c09.c; comparison on defined destination bits; hook H2 only tells which precision served a request")
 
